@@ -414,11 +414,12 @@ fn path_trace_case(entries: usize, own_at: Option<usize>) {
 }
 
 // @harness c15_path_trace_stored
-// @props C15 C03
+// @props C15
 // @tier thorough
+// @role best_effort
 // @variant dl128_lists2
 // @stubbing yes
-// @timeout 3600
+// @timeout 2700
 // @mem 34
 // @functions Port::handle_announce (path trace block), TlvSetIterator::next, ArrayVec::from_iter
 // @bounds slave port, path trace on, Announce from the parent with a PATH_TRACE TLV of 3 symbolic identities none of which is the own identity
@@ -436,7 +437,7 @@ fn c15_path_trace_stored() { path_trace_case(3, None) }
 // @tier thorough
 // @variant dl128_lists2
 // @stubbing yes
-// @timeout 3600
+// @timeout 2700
 // @mem 34
 // @functions Port::handle_announce (path trace block)
 // @bounds as c15_path_trace_stored with the own identity in second position of a 3-entry path
@@ -450,11 +451,12 @@ fn c15_path_trace_stored() { path_trace_case(3, None) }
 fn c15_path_trace_loop() { path_trace_case(3, Some(1)) }
 
 // @harness c15_path_trace_over_capacity
-// @props C15 C03
+// @props C15
 // @tier thorough
+// @role best_effort
 // @variant dl128_lists2
 // @stubbing yes
-// @timeout 3600
+// @timeout 2700
 // @mem 34
 // @functions Port::handle_announce (path trace block), ArrayVec::from_iter
 // @bounds as c15_path_trace_stored with capacity + 1 = 17 entries (129 at the real MAX_DATA_LEN; the UDP general socket buffer of the daemon is 2048 octets)
